@@ -79,7 +79,10 @@ class ResourceUsageReport:
         if len(self.__rows) == 0:
             return "Empty"
 
-        dates = [item.date for item in self.__rows]
+        def day(date):
+            return datetime(date.year, date.month, date.day)
+
+        dates = [day(item.date) for item in self.__rows]
         min_date = min(dates)
         max_date = max(dates)
 
@@ -97,7 +100,7 @@ class ResourceUsageReport:
             table.new_row()
             table.new_cell(d.strftime('%y-%m-%d'))
             for k in resources:
-                val = self.reserved(k, d)
+                val = sum([item.units for item in self.__rows if item.resource == k and day(item.date) == d], 0)
                 if val == 0:
                     color = GREY
                 elif val == k.get_available_units(d):
